@@ -199,7 +199,15 @@ pub enum UserInfoOrHost {
 pub fn user_info_or_host(bytes: &[u8], mut i: usize) -> (UserInfoOrHost, usize) {
 	while i < bytes.len() {
 		match bytes[i] {
-			b'[' => return (UserInfoOrHost::Host, bytes.len()),
+			b'[' => {
+				// IP-literal: the host ends after the closing bracket, a
+				// port may follow.
+				while i < bytes.len() && bytes[i] != b']' {
+					i += 1
+				}
+
+				return (UserInfoOrHost::Host, bytes.len().min(i + 1));
+			}
 			b'@' => return (UserInfoOrHost::UserInfo, i),
 			b':' => {
 				// end of the host, or still in the user-info.
